@@ -186,7 +186,11 @@ func (p *c10) buildCfg(c c10cfg) *Program {
 // c10vars is the hash the host hands over through a variable: a Go map of one type or another (a context
 // variable is rarely a map[string]stick.Value), always with the same two entries.
 func c10vars(k int) interface{} {
-	switch k % 4 {
+	switch k % 6 {
+	case 4: // what a YAML or JSON decoder produces
+		return map[interface{}]interface{}{"w": "varsw", "x": "varsx"}
+	case 5:
+		return &map[string]stick.Value{"w": "varsw", "x": "varsx"}
 	case 0:
 		return map[string]stick.Value{"w": "varsw", "x": "varsx"}
 	case 1:
